@@ -98,6 +98,18 @@ class AccessMixin:
         fi = ci.find_method(self.repo, attr)
         if fi is not None:
             if fi.is_property:
+                top = getattr(self, "top_contract", None)
+                ph = top.options.get("property_handlers", {}).get(f"{ci.name}.{attr}") if top is not None else None
+                if ph is None and top is not None:
+                    for c2 in ci.mro(self.repo):
+                        ph = top.options.get("property_handlers", {}).get(f"{c2.name}.{attr}")
+                        if ph is not None:
+                            break
+                if ph is not None:
+                    # assumed contract of a property the executor cannot follow (e.g. a generator property)
+                    from .api import Ctx
+                    self.assumptions.add(f"assumed contract on property `{ci.name}.{attr}`" + (f": {ph.__doc__.strip().splitlines()[0]}" if ph.__doc__ else ""))
+                    return ph(Ctx(self, fr, attr, node), base)
                 return self.call_function(fi, [], {}, fr, base, node)
             if fi.is_static:
                 return SV(None, Ty("callable"), ("func", fi))
